@@ -350,3 +350,21 @@ def oob_glyph_jobs(tmp, opts=0):
             for hinted in (0, 1, 2):
                 out.append({"font": p, "cps": cps, "dir": d, "opts": opts, "ppm": 11 if hinted else (0 if k % 2 else 14), "hinted": hinted, "nogid": 1, "id": "oobglyph:%d:d%d:h%d" % (k, d, hinted)})
     return out
+
+
+def posonly_font(tmp):
+    """A synthesised font whose first pass is already a positioning pass (no substitution, no justification passes:
+    iSubst = iPos = iJust = 0) and whose bidi step is placed in front of it (bidi pass index 0, not 0xFF)."""
+    from fontgen import gfont, gdl
+    p = os.path.join(tmp, "posonly.ttf")
+    if not os.path.exists(p):
+        keep = dict(op="keep", cls=0, ref=0, adv=-1, user=-1, user2=-1, shift=-1, att=-1, attref=-1, sf=0, sv=0)
+        none = {"kind": "none", "item": 0, "val": 0, "f": 0}
+        prog = [{"kind": "pos", "rules": [{"pre": 0, "ctx": [1, 2], "items": [dict(keep, shift=40), dict(keep, adv=250)], "con": none, "ret": 0}]},
+                {"kind": "pos", "rules": [{"pre": 0, "ctx": [2], "items": [dict(keep, att=30, attref=-1)], "con": none, "ret": 0}]}]
+        m = gdl.font_model(prog, [[1, 2], [2, 3], [4, 5]], [0, 500, 600, 450, 700, 300, 0], [0] * 7, 0)
+        m["jpass"] = 0
+        m["bidipass"] = 0
+        m["cmap"][0x20] = 6
+        open(p, "wb").write(gfont.build_font(m))
+    return p
